@@ -94,7 +94,7 @@ def strategy(hazards):
     ]
     if hasattr(gen, "fiber_program"):
         seeds.append(st.tuples(st.just("gen"), gen.fiber_program(cfg3), layout_ints()))
-    mutation = st.tuples(st.integers(0, 11), st.integers(0, 1 << 16), st.integers(0, 1 << 16), st.integers(0, len(KEYWORDS) + len(OPS) - 1))
+    mutation = st.tuples(st.integers(0, 12), st.integers(0, 1 << 16), st.integers(0, 1 << 16), st.integers(0, 1 << 12))
     return st.tuples(st.one_of(*seeds), st.lists(mutation, min_size=0, max_size=4), st.integers(0, 3))
 
 
@@ -114,6 +114,16 @@ def seed_text(seed):
         path = files[payload % len(files)]
         return open(os.path.join(repo_path(), path), encoding="utf-8", errors="replace").read()
     return ""
+
+
+# lexemes at the edge of what the scanner accepts: exponents without digits, several dots, other radixes, separators,
+# overflowing and non-ascii digits, bad escapes, broken unicode escapes, interpolations that never close, stray
+# characters, comments that never end
+EDGE_LEXEMES = ["1e", "1e+", "2E", "5.97e-", "1.", ".5", "1..2", "1.e3", "1.5.2", "1e1e1", "1e+x", "0x1F", "0b101", "1_000",
+                "1e999", "1e-999", "00012", "9" * 400, "\u0661\u0662", "1e\u0661", "\"\\q\"", "\"\\u{110000}\"",
+                "\"\\u{zz}\"", "\"\\u{\"", "\"\\u\"", "'${'", "'${}'", "'${1'", "'a${'b${1}'}c'", "'${'${'${1}'}'}'",
+                "'\\", "\u00e9", "a?b", "@", "$x", "#", "`", "\\", "/*", "/* never closed", "//", "\"\\",
+                "\"\n\"", "'\t'", "\ufeff", "\u200b", "1;;2", "<-", "<--", "=>", "|||", "&&&", "?.", "::", "..."]
 
 
 def mutate(text, muts):
@@ -160,6 +170,14 @@ def mutate(text, muts):
         elif kind == 10:
             # token soup
             toks = [vocab[(a + k * (b | 1)) % len(vocab)] + " " for k in range(1 + (v % 40))]
+        elif kind == 12 and n:
+            # a literal (or, failing that, any token) replaced by an edge lexeme
+            lex = EDGE_LEXEMES[v % len(EDGE_LEXEMES)]
+            for k in list(range(i, n)) + [i]:
+                if re.match(r"^[0-9\"']", toks[k]):
+                    i = k
+                    break
+            toks[i] = lex
         elif kind == 11 and n:
             # identifier replaced by a keyword
             for k in range(i, n):
@@ -276,6 +294,10 @@ def boundary_texts(tier):
     for n in (65534, 65535, 65536, 65537, 70000):
         # the line table holds 16 bit line numbers
         out.append(("lines-%d" % n, "\n" * (n - 1) + "print(1);\nprint(2);"))
+    for k, lex in enumerate(EDGE_LEXEMES):
+        out.append(("edge-lexeme-%d-let" % k, "let x = %s;\nprint(1);" % lex))
+        out.append(("edge-lexeme-%d-arg" % k, "print(%s, 2);" % lex))
+        out.append(("edge-lexeme-%d-eof" % k, "print(1);\n%s" % lex))
     out.append(("lambda-continue", "for i in [1] { let f = || { continue; }; }"))
     out.append(("lambda-break", "while true { let f = || { break; }; break; }"))
     out.append(("nest-64", "print(" + "(" * 60 + "1" + ")" * 60 + ");"))
